@@ -186,7 +186,7 @@ def _exhaustive():
 
 
 def legs(tier):
-    return [Leg('generated', _case(), run, 6000, 200000),
+    return [Leg('generated', _case(), run, 20000, 200000),
             Leg('exhaustive-AB-len<=4', None, run, 0, 0, cases=_exhaustive)]
 
 
